@@ -45,6 +45,11 @@ def repo_src() -> Path:
 
 def ensure_deps() -> None:
     """Install mpmath + hypothesis into /verif/.deps when missing (offline wheelhouse)."""
+    if not (DEPS / "atheris").is_dir() and (DEPS / "mpmath").is_dir():
+        # optional (thorough-tier fuzzing only); never fatal
+        subprocess.run([sys.executable, "-m", "pip", "install", "--quiet", "--no-index", "--find-links", WHEELS,
+                        "--target", str(DEPS), "atheris"], check=False, stdout=subprocess.DEVNULL,
+                       stderr=subprocess.DEVNULL)
     if not (DEPS / "mpmath").is_dir() or not (DEPS / "hypothesis").is_dir():
         DEPS.mkdir(exist_ok=True)
         subprocess.run(
@@ -132,6 +137,8 @@ class Facet:
     min_nontrivial: float = 0.05   # vacuity floor (fraction of evaluations)
     exhaustive_in: tuple = ()      # tiers in which ``enumerate`` covers the whole domain
     doc: str = ""
+    fuzz_runs: int = 0             # thorough tier: extra coverage-guided campaign (atheris), executions
+    fuzz_instrument: tuple = ()    # package modules instrumented for coverage feedback
 
     def plan(self, tier: str) -> tuple:
         return self.quick if tier == "quick" else self.thorough
@@ -457,6 +464,37 @@ def run_property(prop: str, tier: str, seed: int, only: list | None = None, jobs
                                  initializer=_pin_worker, initargs=(counter,)) as ex:
             results = list(ex.map(run_task, tasks))
 
+    # coverage-guided extra (thorough tier only): one atheris campaign per facet that asks for it
+    fuzz_results = {}
+    if tier == "thorough":
+        sdir = ROOT / ".scratch_evidence"
+        sdir.mkdir(exist_ok=True)
+        procs = []
+        for f in facets:
+            if f.fuzz_runs and f.strategy is not None:
+                out = sdir / f"fuzz-{prop}-{f.name}-{os.getpid()}.json"
+                cmd = [sys.executable, "-m", "vf.fuzz", prop, f.name, "--runs", str(f.fuzz_runs),
+                       "--seed", str(seed), "--out", str(out)]
+                log = open(str(out) + ".log", "w")  # noqa: SIM115
+                procs.append((f, out, subprocess.Popen(cmd, cwd=str(ROOT), stdout=subprocess.DEVNULL, stderr=log)))
+        for f, out, pr in procs:
+            try:
+                pr.wait(timeout=3600)
+            except subprocess.TimeoutExpired:
+                pr.kill()
+            if out.exists():
+                fuzz_results[f.name] = json.loads(out.read_text())
+                out.unlink()
+                logp = Path(str(out) + ".log")
+                if logp.exists():
+                    import re
+
+                    m = re.findall(r"cov: (\d+) ft: (\d+) corp: (\d+)", logp.read_text(errors="replace"))
+                    if m:
+                        fuzz_results[f.name].update(coverage_edges=int(m[-1][0]), features=int(m[-1][1]),
+                                                    corpus_units=int(m[-1][2]))
+                    logp.unlink()
+
     per_facet = {}
     for f in facets:
         rs = [r for r in results if r["facet"] == f.name]
@@ -474,6 +512,12 @@ def run_property(prop: str, tier: str, seed: int, only: list | None = None, jobs
         for r in rs[:3]:
             samples.extend(r["samples"][:3])
         fails = [r["failure"] for r in rs if r["failure"]]
+        fz = fuzz_results.get(f.name)
+        if fz:
+            if fz.get("failure"):
+                fails.append(fz["failure"])
+            if fz.get("harness_error") and "atheris not importable" not in fz["harness_error"]:
+                harness.append(f"{f.name}[fuzz]: {fz['harness_error']}")
         if fails:
             fl = min(fails, key=lambda x: len(json.dumps(x["case"], default=str)))
             path = write_replay(prop, fl)
@@ -488,6 +532,10 @@ def run_property(prop: str, tier: str, seed: int, only: list | None = None, jobs
             "shards": len(rs),
             "doc": f.doc,
         }
+        if fz:
+            per_facet[f.name]["coverage_guided"] = {k: fz.get(k) for k in (
+                "engine", "executions", "distinct_nontrivial", "instrumented", "wall_s", "runs_requested",
+                "coverage_edges", "features", "corpus_units")}
         if ev > 0 and not fails and len(nt) < f.min_nontrivial * ev and not harness:
             harness.append(
                 f"{f.name}: vacuity guard: only {len(nt)} distinct non-trivial cases in {ev} evaluations"
